@@ -34,7 +34,7 @@ CHECKS = {
  "C03": ("ctlsim", "exploration", "runtime monitoring: read-only rule evaluated at settled points of membership walks (hooked state and GET /v1/volumes), with probe I/O and a quorum-loss race",
          "Held on the generated membership walks: at every settled point ReadOnly == (#RW < RF/2+1); mutating probes were refused without reaching a replica iff read-only and accepted whenever a quorum was RW.",
          "Evaluated at settled points (every triggered monitor event acted upon).", "DESIGN.md 4/C03"),
- "C04": ("ctlsim", "exploration", "runtime monitoring: per-read oracle (who served, what was returned) at every cursor position with read faults",
+ "C04": ("ctlsim", "exploration", "runtime monitoring: per-read oracle (who served, what was returned) at every cursor position with read faults; orphaned rebuilding replica; full read sweeps after rebuilds of real replica processes",
          "Held on the generated histories: reads reached RW replicas only (WO/ERR replicas hold a poison pattern), successful reads equalled the model of acknowledged writes, failed readers were detached and another RW replica served, and reads failed when no RW replica existed.",
          "Same fakes as C02.", "DESIGN.md 4/C04"),
  "C05": ("ctlsim", "exploration", "runtime monitoring: minority-failure oracle over all three failure detectors in every order; real processes: SIGKILL/SIGSTOP and strace-injected disk errors (EIO/ENOSPC on pwrite/fsync/pread) on one of three replicas under load",
@@ -55,7 +55,7 @@ CHECKS = {
  "C14": ("restfuzz", "exploration", "runtime monitoring: journalled request fuzzing of both REST routers (single requests, concurrent bursts, two-request lock convoys released in a chosen order) with panic capture, liveness probe and TryLock after every request, child-process death detection",
          "Held on the request matrix (all routes x methods x body classes x id classes x controller/replica states, each pair on a fresh state, plus drifting sequences, bursts of concurrent well-formed requests and lock convoys): no request terminated the process, made a handler panic, failed to return, left the liveness request unanswered or left the controller/replica mutex held.",
          "Handlers run in-process through router.ServeHTTP; outbound calls hit loopback addresses that refuse at once or the scripted replicas' stubs.", "DESIGN.md 4/C14"),
- "C15": ("rpcsim", "exploration", "runtime monitoring: real rpc.Client/Wire/Server against a scripted peer with an independent codec; porcupine linearizability check of end-to-end histories",
+ "C15": ("rpcsim", "exploration", "runtime monitoring: real rpc.Client/Wire/Server against a scripted peer with an independent codec; porcupine linearizability check of end-to-end histories (incl. requests the store refuses); failure reporting through backend/remote's ping monitor on the controller engine in net mode",
          "Held on the generated scenarios: frames round-tripped unchanged in both directions (also with concurrent writers), every call received exactly the reply generated for its own request under bounded reordering, duplicates and unknown sequence numbers; end-to-end histories through the real server were linearizable per block; after a stall, a late reply, close, reset or garbage every pending and later call failed, no request was sent twice and the failure was reported on the close channel.",
          "Read/write deadlines 1 s via the production knobs; sync/unmap/ping deadlines are constants (30/40 s) and are exercised once in the thorough tier.", "DESIGN.md 4/C15"),
  "C07": ("cluster", "exploration", "runtime monitoring on real processes: kill/stop -> restart -> rebuild cycles under foreground writes; round-robin read sweep + extent-exact directory comparison at promotion; sampled mode timeline",
@@ -92,8 +92,8 @@ def main():
         "kind_free_text": "real rpc.Client / rpc.Wire / rpc.Server over loopback TCP against a scripted peer with an independent frame codec; porcupine for end-to-end histories"},
        {"name": "cluster", "path": "harness/internal/cluster", "serves_properties": ["C02", "C04", "C05", "C06", "C07", "C09", "C10", "C11", "C12", "C13", "C19"],
         "kind_free_text": "in-process controller with the real remote factory + REST server, real jiva replica and sync-agent OS processes on their own loopback addresses, supervisor-style kill/restart, model of acknowledged writes"},
-       {"name": "ctlsim", "path": "harness/internal/ctlsim", "serves_properties": ["C01", "C02", "C03", "C04", "C05", "C09", "C10", "C13", "C16", "C18", "C19"],
-        "kind_free_text": "real controller.Controller over scripted types.Backend fakes (per-call outcome scripts, applied logs, remote.Remote-like monitor channel) + HTTP stubs of the replica REST API"},
+       {"name": "ctlsim", "path": "harness/internal/ctlsim", "serves_properties": ["C01", "C02", "C03", "C04", "C05", "C09", "C10", "C13", "C15", "C16", "C18", "C19"],
+        "kind_free_text": "real controller.Controller over scripted types.Backend fakes (per-call outcome scripts, applied logs, remote.Remote-like monitor channel) + HTTP stubs of the replica REST API; net mode: the real backend/remote factory, rpc client and server and ping monitor between the controller and scripted replica endpoints"},
      ],
      "checks": [],
      "notes": "All checks: ./check <ID> quick|thorough. Exit 0 held / 1 VIOLATION / 2 INCONCLUSIVE (harness floor not met) / 3 harness build failure. Known findings: known_findings.json.",
